@@ -94,5 +94,8 @@ def run(ck: Checker) -> None:
     ck.guard("R-CID-WRITE-ONCE", lambda: r_write_once(ck))
     ck.guard("R-ISEQUAL-FORM", lambda: r_isequal(ck))
     ck.guard("R-PRESENCE", lambda: T.r_presence(ck))
-    ck.guard("R-ORDER-KEY", lambda: T.r_order_key(ck))
+    # the digest reads get_properties(skip_id, skip_origin, skip_content_id all True) and get_child_nodes_with_field: the place of the
+    # base properties in the name order is irrelevant to it
+    ck.guard("R-ORDER-KEY", lambda: T.r_order_key(ck, gens=("_gen_get_properties_func", "_gen_get_child_nodes_with_field_func"), base_props=False))
+    ck.guard("R-ORDER-KEY", lambda: T.r_gen_stateless(ck))
     ck.guard("R-FLAGS-TT", lambda: T.r_flags_tt(ck))
